@@ -16,7 +16,7 @@ from vlib import core, sers, streamdrive as sd
 ID = "C01"
 CLAIMED = True
 TITLE = "Stream round-trip under any chunking"
-REQUIRED_THEOREMS = ["C01_sep_copy_roundtrip"]
+REQUIRED_THEOREMS = ["C01_sep_copy_roundtrip", "C01_sep_buffered_roundtrip", "C01_sep_buffered_room"]
 LEVEL_TEXT = (
     "Machine-checked proof (Lean 4) that the modelled consumers and framers deliver exactly the sent frames for "
     "every packet list and every chunking / fill-size sequence, plus a differential correspondence check of the "
